@@ -19,7 +19,7 @@ def model_check(ctx):
     ctx.mc(
         "Unfold",
         "MC_Unfold_q.cfg" if ctx.quick else "MC_Unfold_t.cfg",
-        label="all 26 symmetry tuples x kept shapes (1..3)^3 x {unfold_fields E/H, Field/Phasor detector component subsets, energy, Poynting all/single} x exact on/off; labelled arrays",
+        label=("all 26 symmetry tuples x kept shapes (1..%d)^3 x {unfold_fields E/H, Field/Phasor detector component subsets, energy, Poynting all/single} x exact on/off; labelled arrays" % (2 if ctx.quick else 3)),
     )
     ctx.mc_negative("Unfold", "MC_Unfold_neg.cfg")  # plain flip used for on-plane samples: ClosedForm/MirrorParity must fail
     ctx.mc_negative("Unfold", "MC_Unfold_neg2.cfg")  # reduce-commutes asserted without its precondition must fail
